@@ -69,15 +69,15 @@ Theorem C15_compositional_field : forall E m call dflt o d fs,
   fmap (fun l => VDict (List.concat l))
     (mapM (fun f => match assoc fs (f_name f) with
                     | None => Err XRaw
-                    | Some x => if eff_omit_none call dflt d && is_none x && is_opt (f_ty f) then Ok []
+                    | Some x => if drop_field call dflt d f x then Ok []
                                 else fmap (fun y => [(key_of call dflt d f, y)]) (pack E m call dflt x (f_ty f))
-                    end) (c_fields d)).
+                    end) (pack_order d)).
 Proof. exact comp_field. Qed.
 Print Assumptions C15_compositional_field.
 
 Theorem C15_compositional_wrapper : forall E m call dflt w d t x,
   find_cls E w = Some d -> c_fields d = [mkF "f" None t] ->
-  eff_omit_none call dflt d && is_none x && is_opt t = false ->
+  drop_field call dflt d (mkF "f" None t) x = false ->
   pack E m call dflt (VObj w [("f", x)]) (TData w) = fmap (fun y => VDict [("f", y)]) (pack E m call dflt x t).
 Proof. exact comp_wrapper. Qed.
 Print Assumptions C15_compositional_wrapper.
@@ -201,10 +201,10 @@ Print Assumptions C15_union_order_observable.
 (* --- non-vacuity: the hypotheses of the agreement theorem are met by a non-trivial instance
    (inheritance, alias, Optional, list, a union of two distinguishable dataclasses) ---------- *)
 Definition E_ex : env :=
-  [mkC "A" None [mkF "x" (Some "a_x") TInt] (Some true) None true;
-   mkC "B" (Some "A") [mkF "x" (Some "a_x") TInt; mkF "y" None (TOpt TDate)] None None true;
-   mkC "C" None [mkF "z" None TStr] None None true;
-   mkC "O" None [mkF "u" None (TUnion [TData "B"; TData "C"; TInt]); mkF "l" None (TList (TData "A"))] None None true].
+  [mkC "A" None [mkF "x" (Some "a_x") TInt] (Some true) None None [] false false false true;
+   mkC "B" (Some "A") [mkF "x" (Some "a_x") TInt; mkF "y" None (TOpt TDate)] None None None [] false false false true;
+   mkC "C" None [mkF "z" None TStr] None None None [] false false false true;
+   mkC "O" None [mkF "u" None (TUnion [TData "B"; TData "C"; TInt]); mkF "l" None (TList (TData "A"))] None None None [] false false false true].
 Definition v_ex : val :=
   VObj "O" [("u", VObj "C" [("z", VStr "s")]);
             ("l", VList [VObj "A" [("x", VInt 1)]; VObj "A" [("x", VInt 2)]])].
@@ -218,23 +218,58 @@ Proof. repeat split; reflexivity. Qed.
 
 (* omit_none: Config on one class, the dialect on the others; a None Optional field is dropped where it is effective *)
 Definition E_om : env :=
-  [mkC "A" None [mkF "x" None TInt; mkF "y" None (TOpt TDate)] None (Some false) true;
-   mkC "B" None [mkF "a" None (TData "A"); mkF "z" (Some "a_z") (TOpt TInt)] None None true].
+  [mkC "A" None [mkF "x" None TInt; mkF "y" None (TOpt TDate)] None (Some false) None [] false false false true;
+   mkC "B" None [mkF "a" None (TData "A"); mkF "z" (Some "a_z") (TOpt TInt)] None None None [] false false false true].
 Example C15_agree_o_nonvacuous :
-  let o := mkO (Some true) (Some true) in
+  let o := mkO (Some true) (Some true) None in
   let v := VObj "B" [("a", VObj "A" [("x", VInt 1); ("y", VNone)]); ("z", VNone)] in
-  no_lookalike_union E_om (TData "B") = true /\ dialect_compat_o E_om (mkO (Some true) None) = true /\
+  no_lookalike_union E_om (TData "B") = true /\ dialect_compat_o E_om (mkO (Some true) None None) = true /\
   dialect_compat_o E_om o = false /\ exact E_om v (TData "B") = true /\
-  run_pack_o E_om Codec (mkO (Some true) None) (TData "B") v
+  run_pack_o E_om Codec (mkO (Some true) None None) (TData "B") v
     = Ok (VDict [("a", VDict [("x", VInt 1); ("y", VNone)]); ("a_z", VNone)]) /\
   (* contradicting Config.omit_none=False on A: the call dialect wins on the mixin path, Config on the codec path *)
   run_pack_o E_om Mixin o (TData "B") v = Ok (VDict [("a", VDict [("x", VInt 1)])]) /\
   run_pack_o E_om Codec o (TData "B") v = Ok (VDict [("a", VDict [("x", VInt 1); ("y", VNone)])]).
 Proof. repeat split; reflexivity. Qed.
 
+(* sort_keys / forbid_extra_keys / allow_deserialization_not_by_alias are part of the class table: the agreement, frame and
+   decode theorems above quantify over them.  The field loop of to_dict runs over a permutation of the fields: *)
+Theorem C15_pack_order_perm : forall d f, In f (pack_order d) <-> In f (c_fields d).
+Proof. exact In_pack_order. Qed.
+Print Assumptions C15_pack_order_perm.
+
+Definition E_cfg : env :=
+  [mkC "A" None [mkF "z" None TInt; mkF "b" (Some "a_b") (TOpt TInt); mkF "a" None TStr] (Some true) None None [] true true true true].
+Example C15_config_options_nonvacuous :
+  let v := VObj "A" [("z", VInt 1); ("b", VNone); ("a", VStr "s")] in
+  exact E_cfg v (TData "A") = true /\ no_lookalike_union E_cfg (TData "A") = true /\
+  (* sort_keys: fields sorted by NAME, keys by alias *)
+  run_pack_o E_cfg Mixin no_opts (TData "A") v = Ok (VDict [("a", VStr "s"); ("a_b", VNone); ("z", VInt 1)]) /\
+  run_pack_o E_cfg Codec no_opts (TData "A") v = Ok (VDict [("a", VStr "s"); ("a_b", VNone); ("z", VInt 1)]) /\
+  (* allow_deserialization_not_by_alias: "b" is accepted for the aliased field; forbid_extra_keys: "q" is not *)
+  run_unpack E_cfg Codec (TData "A") (VDict [("z", VInt 1); ("b", VInt 2); ("a", VStr "s")])
+    = Ok (VObj "A" [("z", VInt 1); ("b", VInt 2); ("a", VStr "s")]) /\
+  run_unpack E_cfg Mixin (TData "A") (VDict [("z", VInt 1); ("a_b", VInt 2); ("a", VStr "s"); ("q", VInt 0)]) = Err (XExtra "A").
+Proof. repeat split; reflexivity. Qed.
+
+(* omit_default with literal defaults: a field equal to its default is dropped (a None default also under a None value);
+   a missing key decodes to the default *)
+Definition E_od : env :=
+  [mkC "A" None [mkF "x" None TInt; mkF "y" None (TOpt TStr); mkF "z" None TStr] None None (Some true)
+       [("x", VInt 7); ("y", VNone)] false false false true].
+Example C15_omit_default_nonvacuous :
+  let v := VObj "A" [("x", VInt 7); ("y", VNone); ("z", VStr "s")] in
+  exact E_od v (TData "A") = true /\ dialect_compat_o E_od (mkO None None (Some true)) = true /\
+  run_pack_o E_od Mixin (mkO None None (Some true)) (TData "A") v = Ok (VDict [("z", VStr "s")]) /\
+  run_pack_o E_od Codec (mkO None None (Some true)) (TData "A") v = Ok (VDict [("z", VStr "s")]) /\
+  run_pack_o E_od Codec no_opts (TData "A") (VObj "A" [("x", VInt 8); ("y", VStr "q"); ("z", VStr "s")])
+    = Ok (VDict [("x", VInt 8); ("y", VStr "q"); ("z", VStr "s")]) /\
+  run_unpack E_od Mixin (TData "A") (VDict [("z", VStr "s")]) = Ok (VObj "A" [("x", VInt 7); ("y", VNone); ("z", VStr "s")]).
+Proof. repeat split; reflexivity. Qed.
+
 (* the frame theorem's hypothesis is met by a real creation (a subclass that compiles a method onto "C") *)
 Example C15_frame_nonvacuous :
-  let X := add_class E_ex (mkC "S" (Some "O") [mkF "g" None (TData "C")] None None true) ["C"] in
+  let X := add_class E_ex (mkC "S" (Some "O") [mkF "g" None (TData "C")] None None None [] false false false true) ["C"] in
   extends E_ex X /\ find_cls X "S" <> None /\
   run_pack X Mixin None (TData "O") v_ex = run_pack E_ex Mixin None (TData "O") v_ex.
 Proof. split; [apply extends_add|split; [discriminate|reflexivity]]. Qed.
